@@ -119,6 +119,8 @@ def run(rep, scratch, tier, seed, replay=None):
             else:
                 stats["rejected_existing"] += 1
             writer = "big" if big else "mem"
+            if not os.path.exists(out):
+                continue                      # (already reported above: the second run removed it)
             impl_lines.append("LOADINDEX %s %s %s" % (cid, writer, out))
             model_lines.append("CSV %s %s %d" % (cid, "big" if big else "normal", len(hdr)))
             model_lines += hdr_lines
@@ -179,6 +181,11 @@ def run(rep, scratch, tier, seed, replay=None):
     hpre = sha(pre)
     mal = [("ragged", [b"a", b"b"], [[b"1", b"2"], [b"3"]], None), ("ragged-long", [b"a"], [[b"1"], [b"2", b"3"]], None),
            ("bare-quote", [b"a", b"b"], [[b"1", b"2"]], b'x"y,z\n'), ("unterminated-quote", [b"a"], [[b"1"]], b'"abc\n'), ("empty-file", None, None, None)]
+    for nrows in (1000, 1001):
+        good = [[b"%d" % i, b"x"] for i in range(nrows)]
+        mal.append(("ragged-after-%d-rows" % nrows, [b"a", b"b"], good + [[b"only-one-field"]], None))
+    mal.append(("ragged-first-record", [b"a", b"b"], [[b"1"]], None))
+    mal.append(("bare-quote-first-record", [b"a", b"b"], [], b'x"y,z\n'))
     for name, hdr, recs, tail in mal:
         if hdr is None:
             csvp = os.path.join(d, "empty.csv")
